@@ -19,6 +19,8 @@ three digits with value <= 255, or one arbitrary octet; Name::from_str splits la
 (c) limits: NameBuilder::try_push / try_push_slice refuse to grow a label beyond 63 octets before touching the buffer,
 the buffer is an ArrayVec<u8, 255>, next_label refuses an empty non-terminal label and a full buffer, finish refuses a
 name without the terminating null label.
+(shared) the subdomain relation Name::eq_or_subdomain_of compares whole labels right to left through Label::eq, never raw
+wire octets (a length octet inside a label must not be mistaken for a label boundary).
 Not decided: round trip and total-order laws on arbitrary names (value-level).
 """
 ASSUMPTIONS = ['every CFG path is assumed feasible', 'core ascii helpers trusted']
@@ -30,6 +32,9 @@ def names(fn):
 
 
 def check(R, F):
+    from rules.name_rules import check_label_suffix
+    check_label_suffix(R, F)
+
     # ---- (a)
     le = F.fn('<name::label::Label as std::cmp::PartialEq>::eq')
     cs = [t for b, t in le.calls() if callee_name(t).endswith('eq_ignore_ascii_case')]
